@@ -10,6 +10,7 @@ import AL.Model.SrcPos
 import Driver.Calls
 import Driver.Visit
 import Driver.ParseStep
+import Driver.ParseWf
 
 def dispatch (line : String) : String :=
   match (line.trimAscii.toString.splitOn " ").filter (· ≠ "") with
@@ -23,6 +24,7 @@ def dispatch (line : String) : String :=
   | "visit" :: args => Driver.VisitD.handle args
   | "visitsrc" :: args => Driver.VisitD.handleSrc args
   | "parsestep" :: args => Driver.ParseStepD.handle args
+  | "parsewf" :: args => Driver.ParseWfD.handle args
   | "lintsort" :: args => Driver.LintD.handleSort args
   | "relpath" :: args => Driver.LintD.handleRel args
   | "projectat" :: args => Driver.LintD.handleProjectAt args
